@@ -12,6 +12,7 @@ res_apply=ok
 git apply --3way $src/patch.diff 2>/tmp/wt/v_$name.applyerr || res_apply=fail
 git reset -q
 place=$(head -1 $src/demo_test.go | sed -n 's|^// place in: *||p' | tr -d ' \r')
+pat="^($(grep -o '^func Test[A-Za-z0-9_]*' $src/demo_test.go | sed 's/func //' | paste -sd'|'))\$"
 build=skip; suite=skip; demo_with=skip; demo_without=skip; notpassing=""
 if [ $res_apply = ok ]; then
   git diff > /tmp/wt/v_$name.rebased.diff
@@ -31,9 +32,9 @@ P
 )
   [ "$notpassing" = 0 ] && suite=ok || suite="fail($notpassing)"
   cp $src/demo_test.go $wt/$place/zz_demo_seeded_test.go
-  if (cd $wt/$place && go test -vet=off -count=1 -run 'Demo|Seeded|M[0-9]' . >/tmp/wt/v_$name.demo_with 2>&1); then demo_with=pass; else demo_with=fail; fi
+  if (cd $wt/$place && go test -vet=off -count=1 -run "$pat" . >/tmp/wt/v_$name.demo_with 2>&1); then demo_with=pass; else demo_with=fail; fi
   git apply -R /tmp/wt/v_$name.rebased.diff
-  if (cd $wt/$place && go test -vet=off -count=1 -run 'Demo|Seeded|M[0-9]' . >/tmp/wt/v_$name.demo_without 2>&1); then demo_without=pass; else demo_without=fail; fi
+  if (cd $wt/$place && go test -vet=off -count=1 -run "$pat" . >/tmp/wt/v_$name.demo_without 2>&1); then demo_without=pass; else demo_without=fail; fi
 fi
 mkdir -p /verif/seeded/$name
 cp $src/demo_test.go /verif/seeded/$name/
